@@ -181,8 +181,9 @@ def run(ctx):
     ctx.assumptions += ["ElementLinePp/ElementQuadP (NumPy Legendre objects, irrational scaling), skeleton elements "
                         "(piecewise) and the mesh-dependent functionals of globally defined elements are not traced: "
                         "covered by the numerical search only",
-                        "mapped derivatives (pull-back, Piola) are checked numerically (finite differences, 1e-4 "
-                        "relative), not proved"]
+                        "mapped derivatives: the pull-back / Piola FORMULAS are proved (Props/C09b.lean: chain rule, "
+                        "gradient, Hessian, div, 2-D curl on affine cells); that gbasis implements these formulas "
+                        "is checked numerically (4th-order finite differences, 1e-4 relative)"]
     changed = False
     try:
         changed = genshapes.generate()
@@ -196,7 +197,8 @@ def run(ctx):
         ctx.broken.append({"kind": "translator", "what": "shape functions could not be traced", "err": repr(ex)})
     ctx.notes["generated_files_changed"] = bool(changed)
     if not getattr(ctx, "no_lean", False):
-        ctx.prove(["SkfemVerif.Props.C09"], ["SkfemVerif/Props/C09.lean"],
+        ctx.prove(["SkfemVerif.Props.C09", "SkfemVerif.Props.C09b"],
+                  ["SkfemVerif/Props/C09.lean", "SkfemVerif/Props/C09b.lean"],
                   extra_theorem_files=["SkfemVerif/Gen/ShapeFacts.lean"])
     rng = ctx.rng
     # ---- gen-selfcheck: traced polynomials vs the live lbasis at random points; Python outcome of the checks
